@@ -23,6 +23,11 @@ func main() {
 	verif := flag.String("verif", "", "verif dir (default: parent of the binary's dir)")
 	dump := flag.String("dump", "", "debug: funcs|reach|ssa:<funcKey>")
 	fixtures := flag.Bool("fixtures", true, "run positive controls first")
+	selftest := flag.String("selftest", "", "mutants: mutation self-test of the rules (in memory; not a check)")
+	shard := flag.String("shard", "0/1", "selftest: i/n")
+	kinds := flag.String("kinds", "", "selftest: comma-separated mutation kinds (default all)")
+	outPath := flag.String("out", "", "selftest: result file")
+	mutFuncs := flag.String("funcs", "", "selftest: regular expression over function keys (default all)")
 	flag.Parse()
 	if *verif == "" {
 		exe, _ := os.Executable()
@@ -49,6 +54,14 @@ func main() {
 	if *dump != "" {
 		doDump(prog, *dump)
 		return
+	}
+	if *selftest == "mutants" {
+		var i, n int
+		fmt.Sscanf(*shard, "%d/%d", &i, &n)
+		if *outPath == "" {
+			*outPath = filepath.Join(*verif, "selftest", fmt.Sprintf("mutants_%d_of_%d.json", i, n))
+		}
+		os.Exit(selftestMutants(prog, *repo, *verif, i, n, *kinds, *mutFuncs, *outPath))
 	}
 	var ids []string
 	if *prop == "all" {
